@@ -70,11 +70,23 @@ def generate(tier, rng):
         bs = tlc_generate("Gen_Playback.tla", write_cfg("Gen_Playback_%s.cfg" % fin, base), "sim", num=num, depth=17, tag="c03g")
         for b in bs:
             for kind in ("static", "stream"):
-                scen.append({"kind": kind, "finite": fin, "lenc": 3, "src": "tlc-sim", "steps": b})
+                scen.append({"kind": kind, "finite": fin, "lenc": 3, "src": "tlc-sim", "steps": b,
+                             "e0": len(scen) % 5, "ring": 12 if (kind == "stream" and not fin and len(scen) % 4 == 1) else 0})
             if not fin:
                 # the same history on a stream whose decoder delivers nothing (or 30 frames) and then hangs:
                 # silent, but the life cycle must run on time all the same
                 scen.append({"kind": "starved", "after": [0, 30][len(scen) % 2], "finite": False, "lenc": 3, "src": "tlc-sim-starved", "steps": b})
+    # directed: a resume (or pause) that arrives while a streaming sound is Stopping - the statement leaves the outcome
+    # open, but whatever state the handle then reports must be what is heard (small frame ring: a decoder thread that
+    # has given up is heard within a few callbacks)
+    cbs = lambda n: [{"act": "Callback"}] * n
+    for d in (2, 3):
+        for c2 in ("resume", "pause"):
+            for after in (1, 2):
+                steps = cbs(2) + [{"act": "Cmd", "c": "stop", "d": d}] + cbs(after) + [{"act": "Cmd", "c": c2, "d": 0}] + cbs(3)
+                if c2 == "pause":
+                    steps += [{"act": "Cmd", "c": "resume", "d": 0}]
+                scen.append({"kind": "stream", "finite": False, "lenc": 3, "src": "directed-command-while-stopping", "ring": 12, "e0": 0, "steps": steps + cbs(10)})
     # bounded exhaustive: every behaviour of depth 5 (quick) / 6 (thorough) with one duration set
     depth = 5 if tier == "quick" else 6
     base = cfg([0, 2], [0, 2], 3, 5, False, 3, "  D = %d\nCONSTRAINT Bound\nINVARIANT Dump\n" % depth)
